@@ -473,6 +473,13 @@ def check_pairing(P, R):
             tg_names = {x.id for x in ast.walk(l.target) if isinstance(x, ast.Name)}
             if 'self.named_routes' in it_ and isinstance(key_e, ast.Name) and key_e.id in tg_names:
                 per_name = True
+            # the names may be collected first: `names = [name for name, route in self.named_routes.items() if ..]; for name in names: del ..`
+            ns_ = rn.cfg.nodes_for(l)
+            itx = T.expand(rn, l.iter, ns_[0]) if ns_ else l.iter
+            if isinstance(itx, (ast.ListComp, ast.GeneratorExp, ast.SetComp)) and len(itx.generators) == 1 and 'self.named_routes' in src(itx.generators[0].iter) \
+                    and isinstance(itx.generators[0].target, ast.Tuple) and isinstance(itx.elt, ast.Name) and itx.elt.id == getattr(itx.generators[0].target.elts[0], 'id', None) \
+                    and isinstance(key_e, ast.Name) and key_e.id in tg_names:
+                per_name = True
         by_pattern_map = [x for x in ast.walk(rn.node) if isinstance(x, ast.DictComp) and 'pattern' in src(x.key) and 'named_routes' in src(x.generators[0].iter)]
         if not per_name and not by_pattern_map and not lps:
             R.undecided('C11.d', rn, px, '_remove_named_routers', 'the way the names to drop are enumerated has no recogniser')
